@@ -27,7 +27,9 @@ SHAPE = {
 
 PATHS = {"name": "paths", "units": [("paths.cpp", [])]}
 
-ENGINES = {"hist": HIST, "reject": REJECT, "shape": SHAPE, "paths": PATHS}
+IO = {"name": "io", "units": [("io_main.cpp", [])] + [("io_text.cpp", ["-DVK_PART=%d" % k]) for k in range(5)] + [("io_bin.cpp", ["-DVK_PART=%d" % k]) for k in range(4)]}
+
+ENGINES = {"hist": HIST, "reject": REJECT, "shape": SHAPE, "paths": PATHS, "io": IO}
 
 ASSUME_COMMON = [
     "the g++ 12 / libstdc++ toolchain, AddressSanitizer and UBSan report what they are documented to report",
@@ -258,6 +260,61 @@ def run_paths(prop, tier, seed):
     return V.conclude(prop, tier, seed, plan["level"], res, coverage, ASSUME_COMMON, plan["floors"], t0)
 
 
+IO_PLAN = {
+    "C13": dict(level="exploration", quick=6000, thorough=300000,
+                rule="(a) round trip: seeded random graphs (zero vertices, no edges, loops, isolated tail beyond the largest used index) on Labeled(Un)DirectedGraph with "
+                     "labels NoLabel,int,double(%.17g),string(inner blanks, '#', empty),struct(own codec); the written file is parsed independently (header comment, "
+                     "one 'src dst[ label]' line per edge), loaded, loaded size = 1+largest index, then resized and compared observer by observer, label by label and "
+                     "with operator== against the original. (b) format: files generated from the documented grammar (comment lines anywhere, runs of blanks/tabs "
+                     "before/between/after tokens, optional final newline) must load to the model. (c) vertex-name loader: random whitespace-free names (may contain or, "
+                     "after blanks, start with '#'; numeric-looking names included): indices by first appearance, names[index(x)]==x, edges under the map",
+                floors={"text_round_trips": 1500, "well_formed_files_loaded": 1500, "name_files_loaded": 1500, "comment_lines_generated": 500,
+                        "whitespace_runs_longer_than_one": 3000, "zero_vertex_graphs": 30, "graphs_with_isolated_tail": 200, "files_without_final_newline": 100}),
+    "C14": dict(level="exploration", quick=6000, thorough=300000,
+                rule="seeded random graphs x label kinds none,uint8,int8,char,uint16,int32,uint32,int64,uint64,float,double x directed/undirected: bytes of the written "
+                     "file compared with the monitor's own encoding (u32le src, u32le dst, label little-endian per enumerated edge), length = edges x record size, loaded "
+                     "twice (deterministic), resized, compared with the model and operator== the original; hand-made files written by the monitor's encoder with records "
+                     "shuffled / undirected pairs flipped must load to the same graph; every writer and loader (text ones too) on unopenable paths (missing directory, "
+                     "over-long name, empty name, directory for writers, removed file for loaders) must throw std::runtime_error",
+                floors={"binary_round_trips": 4000, "hand_made_files_loaded": 2000, "open_failure_calls": 1500, "file_bytes_compared_with_independent_encoding": 100000}),
+    "C15": dict(level="fault_enumeration", quick=4000, thorough=200000,
+                rule="(a) crash points: for seeded valid binary files (label sizes 0,1,2,4,8 bytes; directed and undirected) EVERY cut offset 0..length is loaded; the "
+                     "loader must throw a std::exception or return exactly the complete records before the cut (vertices, edges, labels). (b) malformed text from a "
+                     "grammar of mutations (blank / one-token / blank-only lines, '#' after blanks, non-numeric, negative, -1, overflowing, '12abc', hex, NUL and stray "
+                     "bytes, CR, very long lines), vertex numbers kept in [0,2000] or negative or overflowing; both text loaders x NoLabel,int,string labels; oracle: "
+                     "returns a graph whose observers can all be read, or throws something derived from std::exception. ASan+UBSan+_GLIBCXX_ASSERTIONS in-process; an "
+                     "input that kills the process is re-run in a forked child and reported; thorough adds valgrind memcheck over the truncation cases",
+                floors={"cut_offsets_loaded": 20000, "cuts_inside_a_record": 15000, "malformed_text_inputs": 3000, "malformed_text_loader_threw_std_exception": 800,
+                        "malformed_text_loader_returned": 300}),
+}
+
+
+def run_io(prop, tier, seed):
+    t0 = time.time()
+    plan = IO_PLAN[prop]
+    binary = V.build_engine(IO, "asan")
+    cases = plan[tier]
+    res = V.run_sharded(prop, binary, [], cases, seed, tier, V.NCPU, 900 if tier == "quick" else 10800, replay_dir(prop), tag="io-" + prop,
+                        isolate_args=["--x-isolate", "1"] if prop == "C15" else None)
+    c = res.counters
+    evaluations = cases
+    if prop == "C15":
+        evaluations = int(c.get("cut_offsets_loaded", 0) + c.get("malformed_text_inputs", 0))
+    coverage = {
+        "evaluations": int(evaluations),
+        "distinct_nontrivial": res.n_distinct(),
+        "rule": plan["rule"],
+        "samples": sample_list(res.samples),
+        "counters": {k: v for k, v in sorted(c.items())},
+        "build": "g++ -O1 -fsanitize=address,undefined -fno-sanitize-recover=all -D_GLIBCXX_ASSERTIONS",
+        "exhaustive": False,
+    }
+    assume = list(ASSUME_COMMON)
+    if prop == "C14":
+        assume.append("this host is little-endian: the byte-swapping branch for big-endian hosts is not executable here; 'any host' is observed as this host plus an independent encoder")
+    return V.conclude(prop, tier, seed, plan["level"], res, coverage, assume, plan["floors"], t0)
+
+
 TITLES = {}
 for line in open(os.path.join(V.VERIF, "properties.jsonl")):
     d = json.loads(line)
@@ -272,6 +329,8 @@ for p in SHAPE_PLAN:
     PROPS[p] = {"title": TITLES[p], "run": run_shape, "engines": [("shape", "asan")]}
 for p in PATHS_PLAN:
     PROPS[p] = {"title": TITLES[p], "run": run_paths, "engines": [("paths", "asan")]}
+for p in IO_PLAN:
+    PROPS[p] = {"title": TITLES[p], "run": run_io, "engines": [("io", "asan")]}
 PROPS["C07"] = {"title": TITLES["C07"], "run": run_c07, "engines": [("reject", "asan")]}
 
 
